@@ -61,7 +61,10 @@ Inductive op :=
 | Burn (sender denom : string) (dv : bool) (amt : Z) (from : target)
 | ChangeAdmin (sender denom new_admin : string) (na_valid : bool)
 | SetMeta (sender base : string) (md_valid : bool)
-| BurnNative (sender denom : string) (dv : bool) (amt : Z).
+| BurnNative (sender denom : string) (dv : bool) (amt : Z)
+(** not a message: the module's genesis is exported and imported again (ExportGenesis, then InitGenesis
+    into an emptied module store) — a chain upgrade / fork / restart from an exported state *)
+| Reimport.
 
 Record st := {
   admins : string -> option string;    (* denomAdmins: denom -> DenomAuthorityMetadata.Admin *)
@@ -151,6 +154,10 @@ Definition step (blocked : list string) (s : st) (o : op) : option st :=
                    bal := upd2 (bal s) sender d (bal s sender d - amt);
                    supply := upd (supply s) d (supply s d - amt) |}
       else None
+  | Reimport =>
+      (* export ∘ import is the identity on denoms, admins (incl. renounced ones and admins that have
+         no account yet); balances and supply live in the bank module and are carried by its genesis *)
+      Some s
   end.
 
 Definition deliver (blocked : list string) (s : st) (o : op) : st * bool :=
@@ -189,4 +196,5 @@ Fixpoint run_txs (blocked : list string) (s : st) (h : list (list op)) : st * li
 Definition sender_of (o : op) : string :=
   match o with
   | Create s _ | Mint s _ _ _ _ | Burn s _ _ _ _ | ChangeAdmin s _ _ _ | SetMeta s _ _ | BurnNative s _ _ _ => s
+  | Reimport => EmptyString
   end.
